@@ -69,6 +69,31 @@ func buildWPool(c *c13ref.WCurve, stream string, nRandom, nLift int, cof *big.In
 			return
 		}
 	})
+	// points with a distinguished coordinate: x = 0 (exists whenever b is a
+	// square: P-256, P-384, P-521 - an "is this the identity" test that looks
+	// at one coordinate only mistakes them for the point at infinity), x = 1,
+	// 2, 3, p-1, p-2, both signs of y, brought into the subgroup like the rest
+	if c.F.Deg == 1 {
+		for _, xv := range []*big.Int{big.NewInt(0), big.NewInt(1), big.NewInt(2), big.NewInt(3),
+			new(big.Int).Sub(c.F.P, big.NewInt(1)), new(big.Int).Sub(c.F.P, big.NewInt(2))} {
+			pt, ok := c.Lift(c.F.New(xv, nil))
+			if !ok {
+				continue
+			}
+			if cof != nil {
+				pt = c.Mul(cof, pt)
+			}
+			if pt.Inf {
+				continue
+			}
+			cl := "lifted"
+			if xv.Sign() == 0 && cof == nil {
+				cl = "lifted-x=0"
+				lib.Count("pool:point-with-x=0:" + stream)
+			}
+			out = append(out, wpt{nil, pt, cl}, wpt{nil, c.Neg(pt), cl})
+		}
+	}
 	return out
 }
 
